@@ -15,6 +15,7 @@ import (
 	"verif/harness/checks/c14"
 	"verif/harness/checks/c15"
 	"verif/harness/checks/c16"
+	"verif/harness/checks/c17"
 	"verif/harness/checks/c18"
 	"verif/harness/checks/c19"
 )
@@ -34,6 +35,7 @@ func init() {
 	register("C14", "model_checking", c14.Run, c14.Replay)
 	register("C15", "model_checking", c15.Run, c15.Replay)
 	register("C16", "exploration", c16.Run, c16.Replay)
+	register("C17", "exploration", c17.Run, c17.Replay)
 	register("C18", "exploration", c18.Run, c18.Replay)
 	register("C19", "model_checking", c19.Run, c19.Replay)
 }
